@@ -25,6 +25,8 @@ def gen_cases(tier, seed):
         s = env.seed_for(seed, ID, tier, i)
         r = random.Random(env.seed_for(s, "descriptor"))  # independent of the stream run_case derives from the same seed
         out.append({"seed": s, "n": r.randint(2, 20 if tier == "quick" else 50), "steps": r.randint(0, 8)})
+    for i in range(n // 7):
+        out.append({"seed": env.seed_for(seed, ID, tier, "file", i), "mode": "file"})
     return out
 
 
@@ -47,9 +49,82 @@ def same_contents(a, b):
     return None
 
 
+def run_file(desc):
+    """Dry run over REAL file-backed stores: the directory (names, bytes, mtimes, inodes - including staging files a killed writer left
+    behind and unrelated files) must be exactly what it was; only modified times may be asked for."""
+    import datetime as dt
+    import os
+    import shutil
+    import tempfile
+
+    import uberjob
+    from vmon.checks import c08_file
+
+    rng = random.Random(desc["seed"])
+    shape = rng.choice([0, 1, 2])
+    d = tempfile.mkdtemp(prefix="vmon-c14f-")
+    try:
+        plan, reg, stores, nodes, deps = c08_file.build(d, shape)
+        names = list(nodes)
+        initial = rng.choice(["empty", "built", "stale", "partial"])
+        stores["a"].write({"v": 1})
+        if initial != "empty":
+            c08_file.wait_fs_tick(d)
+            uberjob.run(plan, registry=reg, progress=None, max_workers=1)
+            if initial == "stale":
+                c08_file.wait_fs_tick(d)
+                stores["a"].write({"v": 2})
+            elif initial == "partial":
+                os.remove(stores[rng.choice(names[1:])].path)
+        leftovers = []
+        for n in names:
+            if rng.random() < 0.5:
+                lp = str(stores[n].path) + ".STAGING"
+                with open(lp, "wb") as f:
+                    f.write(b"partial write of a killed process " * rng.randint(0, 3))
+                leftovers.append(os.path.basename(lp))
+        with open(os.path.join(d, "unrelated.txt"), "w") as f:
+            f.write("x")
+
+        def snap():
+            out = {}
+            for nm in sorted(os.listdir(d)):
+                st_ = os.stat(os.path.join(d, nm))
+                with open(os.path.join(d, nm), "rb") as f:
+                    out[nm] = (f.read(), st_.st_mtime_ns, st_.st_ino)
+            return out
+
+        before = snap()
+        out_node = rng.choice([None] + [nodes[n] for n in names])
+        fresh = rng.choice([None, None, dt.datetime.now(), dt.datetime(2001, 1, 1)])
+        exc = None
+        try:
+            uberjob.run(plan, registry=reg, output=out_node, dry_run=True, progress=None, max_workers=rng.choice([1, 3]), fresh_time=fresh)
+        except BaseException as e:
+            exc = e
+        after = snap()
+        bad = None
+        if exc is not None:
+            return {"status": "inconclusive", "detail": f"file-backed dry run raised {exc!r}"}
+        if before != after:
+            gone = sorted(set(before) - set(after))
+            new = sorted(set(after) - set(before))
+            changed = sorted(k for k in before if k in after and before[k] != after[k])
+            bad = f"[file-backed, initial={initial}, leftovers={leftovers}] a dry run changed the store directory: removed {gone}, created {new}, modified {changed}"
+        res = {"status": "ok", "counters": {"file_dry_runs": 1, "file_dry_runs_with_leftover_staging": int(bool(leftovers))}, "nontrivial": bool(leftovers),
+               "sig": f"file|{shape}|{initial}|{sorted(leftovers)}"}
+        if bad:
+            res.update(status="violation", detail=bad, mechanism="dry-run", witness={"before": sorted(before), "after": sorted(after)})
+        return res
+    finally:
+        shutil.rmtree(d, ignore_errors=True)
+
+
 def run_case(desc):
     import uberjob
 
+    if desc.get("mode") == "file":
+        return run_file(desc)
     problems, stats, S, log = history.run_history(desc, props=())
     if problems:
         return {"status": "ok", "counters": {"prefix_histories_cut_short": 1}, "nontrivial": False}
